@@ -266,6 +266,28 @@ def _check_threaded(case: Dict[str, Any]) -> Dict[str, Any]:
             if b.exc is not None and type(b.exc).__name__ not in ALLOWED_EXC:
                 raise Violation(f'call in flight on another thread ended with {type(b.exc).__name__}',
                                 dict(det, call=b.name, exc=repr(b.exc)), tag='threaded-task-raised:' + type(b.exc).__name__)
+        # the last word about each of the instance's own records before the sockets closed must be a goodbye (also for a
+        # registration on another thread that completed while the close was under way)
+        own = set()
+        for d in SVCS:
+            sv = rp.Svc(d)
+            own |= {sv.ptr(), sv.srv(), sv.txt()} | set(sv.addresses())
+        last_word: Dict[Any, int] = {}
+        for e in trace:
+            if e['dst'] != sim.MDNS4 or e['closed']:
+                continue
+            m = sim.decode_trace_entry(e)
+            if m is None or not m['flags'] & 0x8000:
+                continue
+            for r in m['an'] + m['ar']:
+                i = rp.ident_of_wire_rr(r)
+                if i in own:
+                    last_word[i] = r['ttl']
+        alive_recs = sorted(str(i) for i, ttl in last_word.items() if ttl > 0)
+        if alive_recs:
+            raise Violation('the last thing the instance multicast about one of its own records before close() returned carried a '
+                            'non-zero TTL (announced or answered for, never withdrawn)', dict(det, records=alive_recs[:4]),
+                            tag='threaded-close-last-word')
         g_socks = min([g for g, what in w.marks if what == 'transport-closed'] or [g_done])
         for s in in_registry:
             want = {s.ptr(), s.srv(), s.txt()} | set(s.addresses())
